@@ -22,6 +22,10 @@ import (
 // -race (GORACE=halt_on_error=1): a data race ends the process and /verif/check turns the race report into the
 // violation, with the case that was running (written to current-C20-<shard>/ before every run) as the replay.
 
+// c20LateExits counts analyses after which a goroutine was still being counted when Analyze returned and was gone
+// within the settle time.
+var c20LateExits int
+
 func goroutinesSettle(base int) int {
 	deadline := time.Now().Add(2 * time.Second)
 	n := runtime.NumGoroutine()
@@ -175,7 +179,11 @@ func c20Analyse(files map[string]string, o c20Opts, reports string) (string, int
 		return fmt.Sprintf("%d goroutine(s) started by the analysis are still running 2 s after it returned [%s]", left-base, o), nsum
 	}
 	if after > base {
-		return fmt.Sprintf("%d goroutine(s) started by the analysis outlived the call to Analyze [%s]", after-base, o), nsum
+		// A worker that has delivered its result may still be counted while it returns (wg.Done() runs before the
+		// goroutine is gone): a higher count immediately after Analyze is not a leak. It is a violation only when the
+		// goroutine is still there after the settle time (above) or when it changes a report file after the return
+		// (below); the observation is counted.
+		c20LateExits++
 	}
 	var names []string
 	for n := range later {
@@ -244,7 +252,11 @@ func TestC20(t *testing.T) {
 		}
 		c20WriteCurrent(files, o)
 		for rep := 0; rep < 2; rep++ {
+			before := c20LateExits
 			msg, nsum := c20Analyse(files, o, reports)
+			if c20LateExits > before {
+				rec.Count("goroutine_still_counted_at_return_but_gone_after_settle", 1)
+			}
 			if rep == 0 {
 				rec.Case(core.Hash(prog.Main, o.String()), (o.Summaries || o.Coverage || o.Paths || o.NoCallee) && nsum >= 30,
 					[]string{fmt.Sprintf("summaries:%v", o.Summaries), fmt.Sprintf("ondemand:%v", o.OnDemand), fmt.Sprintf("escape:%v", o.Escape)},
